@@ -133,7 +133,8 @@ def check_spec(spec: NetSpec, label, st: Stats, plan):
                 st.inc("balances_checked", 1 + spec.n)
         if full:
             # the same network reached by editing a different, already stepped network in place
-            for (vlabel, val), emode in zip(list(valgen.vectors(spec, 0)) * 2, ("links", "attachments", "replace", "params")):
+            for (vlabel, val), emode in (list(zip(list(valgen.vectors(spec, 0)) * 2, ("links", "attachments", "replace", "params")))
+                                            + [(list(valgen.vectors(spec, 0))[0], "params")]):
                 st.inc("executions", 2)
                 case = {"spec": spec.describe(), "config": label, "P": P, "val": {f"{k[0]}.{k[1]}": v for k, v in val.items()},
                         "engine": "numpy", "edited": emode}
